@@ -128,6 +128,8 @@ static std::vector<Scenario> make_scenarios(bool thorough) {
                                   {fftop(60, 6), fftop(9, 7), fftop(16, 8), fftop(45, 9), fftop(12, 10)}}, 1);
         free_fn("H2.rfft-mix.t2", {{rfftop(16, 11), rfftop(30, 12), rfftop(13, 13), ifftop(12, 14), irfftop(24, 15)},
                                    {irfftop(24, 16), rfftop(15, 17), ifftop(16, 18), rfftop(30, 19), fftop(7, 20)}}, 1);
+        free_fn("H2.irfft-lengths.t3", {{irfftop(12, 24), irfftop(20, 25)}, {irfftop(14, 26), irfftop(24, 27)},
+                                        {Op{"IfftPlanR(16)", [] { IfftPlanR p(16); return H(p.solve(cletter(9, 28))); }}, irfftop(10, 29)}}, 1);
         free_fn("H2.fft-same-length.t3", {{fftop(12, 21)}, {fftop(12, 22)}, {rfftop(12, 23)}}, 2);
         free_fn("H2.xcorr-fftfilter.t2",
                 {{Op{"xcorr", [] { return H(xcorr(rletter(20, 31), rletter(9, 32))); }},
